@@ -68,6 +68,11 @@ func didcommAttack(rep int) *hx.Record { //nolint:funlen,gocyclo
 
 	id := newWorldID()
 	users := []string{fmt.Sprintf("c19-%s-dc%d-a", runNonce, id), fmt.Sprintf("c19-%s-dc%d-b", runNonce, id)}
+	if k := rep % (nameSchemes + 1); k != 0 { // user IDs that are look-alikes of one another (names.go)
+		base := fmt.Sprintf("c19-%s-dc%d-user@example.com", runNonce, id)
+		users = []string{similarName(base, k, 1), similarName(base, k, 2)}
+	}
+
 
 	var (
 		ws   []*wallet.Wallet
